@@ -54,6 +54,17 @@ CURATED = [
     ["L1 X1 Y2.2 A1 R5"],                                  # a cleanup action that suspends on a leaf, after a plain one was registered
     ["Y1.2 T1 R5", "L1 Y2.3 X3 A1 R6"],                    # suspending cleanup actions in parent and child
     ["Y1.2 S1 Y2.3 Q R5"],                                 # suspending cleanup actions registered on different schedulers
+    # sequences of schedule hops, including hops onto the scheduler the task is already running on
+    ["S0 S1 A1 R5"],                                       # root: first hop targets its own scheduler, the second one another
+    ["T1 Q R5", "S0 S2 A1 R6"],                            # the same in a child: the parent must still resume on context 0
+    ["S1 T1 Q R5", "S1 S2 R6"],                            # parent on ctx 1, child hops 1 -> 1 -> 2, falls back to 1, root back to 0
+    ["S1 S2 S1 X1 R5"], ["S1 S1 S2 Q R5"],
+    ["X1 O1 Q R5", "S0 X2 S1 S2 W7"],                      # hops in a connect()ed child that ends with an exception
+    # awaiter shapes: bool await_suspend (false / true), await_ready() / void await_suspend, symmetric transfer via a trampoline
+    ["B1 V2 H3 R5"],
+    ["X1 B1c T1 R5", "L1 V2 H3c R6"],
+    ["S1 B1 M2 V3 R5"],
+    ["O1 R5", "L1 B1 V2 W7"],
 ]
 
 
@@ -78,8 +89,8 @@ def random_script(rng):
             if nx < 2: opts += ["X", "X"]
             if nx < 2 and leaf[0] < 3: opts += ["Y"]
             if nl < 2: opts += ["L"]
-            if nleaf < 2 and leaf[0] < 3: opts += ["A", "A", "A", "N", "M"]
-            if ns < 1: opts += ["S"]
+            if nleaf < 2 and leaf[0] < 3: opts += ["A", "A", "A", "N", "M", "H", "B", "V"]
+            if ns < 2: opts += ["S"]
             if nq < 1: opts += ["Q"]
             if pend: opts += ["K", "K", "K"]
             if not opts:
@@ -88,10 +99,10 @@ def random_script(rng):
             if o == "X": nx += 1; st.append("X%d" % (10 * k + nx))
             elif o == "Y": nx += 1; leaf[0] += 1; st.append("Y%d.%d" % (10 * k + nx, leaf[0]))
             elif o == "L": nl += 1; st.append("L%d" % (10 * k + nl))
-            elif o in "ANM":
+            elif o in "ANMHBV":
                 nleaf += 1; leaf[0] += 1
                 st.append("%s%d%s" % (o, leaf[0], "c" if rng.random() < 0.3 else ""))
-            elif o == "S": ns += 1; st.append("S%d" % rng.choice([1, 2]))
+            elif o == "S": ns += 1; st.append("S%d" % rng.choice([0, 1, 2]))
             elif o == "Q": nq += 1; st.append("Q")
             elif o == "K":
                 c = pend.pop(0)
@@ -109,7 +120,7 @@ def catalogue(tier):
     rng = random.Random(20260923)          # the catalogue is fixed per tier (VERIF_SEED drives sampling / walks only)
     texts = [list(b) for b in CURATED]
     seen = set(json.dumps(t) for t in texts)
-    want = len(texts) + (10 if tier == "quick" else 60)
+    want = len(texts) + (8 if tier == "quick" else 60)
     while len(texts) < want:
         t = random_script(rng)
         if json.dumps(t) not in seen:
@@ -175,7 +186,7 @@ def compare(exp_steps, got_steps):
 def run(ctx):
     rep = ctx.rep
     prop = ctx.prop
-    monprop = {"C10": "ALL", "C11": "C11", "C04": "C04"}.get(prop, "ALL")
+    monprop = {"C10": "ALL", "C11": "C11", "C04": "C04", "C20": "C20"}.get(prop, "ALL")
     rep.assume("task bodies are scripts over: local, at_coroutine_exit(task), co_await of a controllable leaf sender / awaitable / "
                "as_sender(awaitable) / child task / done_as_optional(child task) / schedule(ctx) / stop_if_requested(), throw, co_return; "
                "<= 3 frames, <= 7 statements per body, <= 2 cleanup actions per frame; cleanup actions are tasks that complete inline or suspend on a leaf that yields a value")
@@ -190,7 +201,12 @@ def run(ctx):
     json.dump([dict(id=s["id"], body=s["body"]) for s in cat], open(sp, "w"))
     # build first (cached)
     LIB = ["task.cpp", "inplace_stop_token.cpp", "async_stack.cpp", "exception.cpp"]
-    exe = vlib.build(ctx, "coro_driver", [os.path.join(HERE, "driver.cpp")], lib=LIB, incs=[os.path.join(HERE, "rt")], std="c++20")
+    def build_cfg(defs=()):
+        # library sources (incl. source/task.cpp) are compiled from the tree under test; vlib caches by the tree's content hash
+        return vlib.build(ctx, "coro_driver", [os.path.join(HERE, "driver.cpp")], lib=LIB, incs=[os.path.join(HERE, "rt")], std="c++20", defs=list(defs))
+    exe = build_cfg()
+    if prop == "C20":
+        return run_c20(ctx, cat, by_id, sp, build_cfg)
     exe_race = vlib.build(ctx, "coro_driver_race", [os.path.join(HERE, "driver_race.cpp")], lib=LIB, incs=[os.path.join(HERE, "rt")], std="c++20")
     # ---- TLC: fine-grained model, invariants in every state
     vlib.model_check(ctx, "coro", "TasksMC", env={"SCRIPTS": sp}, timeout=3000, xmx="8g")
@@ -205,44 +221,7 @@ def run(ctx):
     vlib.model_check(ctx, "coro", "SrThunkMC", cfg="SrThunkMC.cfg", env={"EDGES": sr_edges}, workers=1, timeout=600)
     rep.note("SrThunk: the join protocol holds (TLC, roles R/T/S/Q at schedule-point granularity); seeded defects "
              "(who_late; thorough: also start_early, no_destruct) are refuted as expected")
-    # ---- TLC: macro steps + export
-    edges = os.path.join(ctx.work, "edges.ndjson")
-    t0 = time.time()
-    vlib.model_check(ctx, "coro", "TasksMacro", env={"SCRIPTS": sp, "EDGES": edges}, workers=1, timeout=3000, xmx="8g")
-    t1 = time.time()
-    macro, inits, nedges = macro_graph(edges)
-    os.remove(edges)
-    walks = vlib.edge_cover(macro, inits)
-    rep.exhaustive = True
-    behaviours = []
-    for w in walks:
-        cfg = w[0]["cfg"]
-        sc = by_id[cfg["script"]]
-        steps = [dict(k=m["ext"]["k"], n=m["ext"]["n"], ch=m["ext"]["ch"], exp=m["obs"]) for i, m in enumerate(w)]
-        behaviours.append(dict(cfg=dict(script=sc["id"], body=sc["body"], mode=cfg["mode"]), steps=steps, started=False))
-    rep.note("%d scripts; %d macro-steps exported (TLC %.0fs); %d edge-covering behaviours (%.0fs)" % (len(cat), nedges, t1 - t0, len(behaviours), time.time() - t1))
-    nall = len(behaviours)
-    cap = int(os.environ.get("VERIF_CORO_CAP", "0") or 0) or (4000 if ctx.quick else 40000)
-    if nall > cap:
-        groups = collections.defaultdict(list)
-        for b in behaviours:
-            groups[b["cfg"]["script"]].append(b)
-        per = max(1, cap // max(1, len(groups)))
-        chosen, rest = [], []
-        for sid in sorted(groups):
-            g = groups[sid]
-            ctx.rng.shuffle(g)
-            chosen += g[:per]
-            rest += g[per:]
-        ctx.rng.shuffle(rest)
-        behaviours = chosen + rest[:max(0, cap - len(chosen))]
-        rep.note("replaying a seeded script-stratified sample of %d of %d edge-covering behaviours (seed %d)" % (len(behaviours), nall, ctx.seed))
-    else:
-        ctx.rng.shuffle(behaviours)
-    bp = os.path.join(ctx.work, "behaviours.ndjson")
-    with open(bp, "w") as f:
-        for i, b in enumerate(behaviours):
-            f.write(json.dumps(dict(b=i, cfg=b["cfg"], steps=[dict(k=s["k"], n=s["n"], ch=s["ch"]) for s in b["steps"]])) + "\n")
+    behaviours, bp = make_behaviours(ctx, cat, by_id, sp, int(os.environ.get("VERIF_CORO_CAP", "0") or 0) or (4000 if ctx.quick else 40000))
     # ---- replay
     outp = os.path.join(ctx.work, "replay_out.ndjson")
     lp = os.path.join(ctx.work, "coro_log.ndjson")
@@ -259,10 +238,7 @@ def run(ctx):
             got[r["x"]] = r
     rep.evaluations += len(got)
 
-    def describe(b):
-        sc = by_id[b["cfg"]["script"]]
-        return sc["text"], {l: ("%s%s%s" % ("inline " if m["inl"] else "deferred ", m["ch"] if m["inl"] else "", "" if m["inl"] or m["onStop"] == "ignore" else "stop->done")).strip()
-                            for l, m in sorted(b["cfg"]["mode"].items())}, [(s["k"], s["n"], s["ch"]) for s in b["steps"]]
+    describe = lambda b: describe_b(by_id, b)
 
     for d in deaths:
         x = d["x"]
@@ -494,3 +470,127 @@ def root_fields(events, prefix):
     if ev.get("e") != "RootComplete":
         return {}
     return dict(root_ch=ev.get("ch"), root_regs=ev.get("regs"), ext_stop=any(e.get("e") == "ExtStop" for e in events[:prefix]))
+
+
+def make_behaviours(ctx, cat, by_id, sp, cap):
+    """TLC macro-step export -> edge-covering behaviours -> (seeded, script-stratified sample, file for the driver)."""
+    rep = ctx.rep
+    # ---- TLC: macro steps + export
+    edges = os.path.join(ctx.work, "edges.ndjson")
+    t0 = time.time()
+    vlib.model_check(ctx, "coro", "TasksMacro", env={"SCRIPTS": sp, "EDGES": edges}, workers=1, timeout=3000, xmx="8g")
+    t1 = time.time()
+    macro, inits, nedges = macro_graph(edges)
+    os.remove(edges)
+    walks = vlib.edge_cover(macro, inits)
+    rep.exhaustive = True
+    behaviours = []
+    for w in walks:
+        cfg = w[0]["cfg"]
+        sc = by_id[cfg["script"]]
+        steps = [dict(k=m["ext"]["k"], n=m["ext"]["n"], ch=m["ext"]["ch"], exp=m["obs"]) for i, m in enumerate(w)]
+        behaviours.append(dict(cfg=dict(script=sc["id"], body=sc["body"], mode=cfg["mode"]), steps=steps, started=False))
+    rep.note("%d scripts; %d macro-steps exported (TLC %.0fs); %d edge-covering behaviours (%.0fs)" % (len(cat), nedges, t1 - t0, len(behaviours), time.time() - t1))
+    nall = len(behaviours)
+    if nall > cap:
+        groups = collections.defaultdict(list)
+        for b in behaviours:
+            groups[b["cfg"]["script"]].append(b)
+        per = max(1, cap // max(1, len(groups)))
+        chosen, rest = [], []
+        for sid in sorted(groups):
+            g = groups[sid]
+            ctx.rng.shuffle(g)
+            chosen += g[:per]
+            rest += g[per:]
+        ctx.rng.shuffle(rest)
+        behaviours = chosen + rest[:max(0, cap - len(chosen))]
+        rep.note("replaying a seeded script-stratified sample of %d of %d edge-covering behaviours (seed %d)" % (len(behaviours), nall, ctx.seed))
+    else:
+        ctx.rng.shuffle(behaviours)
+    bp = os.path.join(ctx.work, "behaviours.ndjson")
+    with open(bp, "w") as f:
+        for i, b in enumerate(behaviours):
+            f.write(json.dumps(dict(b=i, cfg=b["cfg"], steps=[dict(k=s["k"], n=s["n"], ch=s["ch"]) for s in b["steps"]])) + "\n")
+    return behaviours, bp
+
+
+def describe_b(by_id, b):
+    sc = by_id[b["cfg"]["script"]]
+    return sc["text"], {l: ("%s%s%s" % ("inline " if m["inl"] else "deferred ", m["ch"] if m["inl"] else "", "" if m["inl"] or m["onStop"] == "ignore" else "stop->done")).strip()
+                        for l, m in sorted(b["cfg"]["mode"].items())}, [(s["k"], s["n"], s["ch"]) for s in b["steps"]]
+
+
+# ----------------------------------------------------------------------------- C20: build configurations
+def run_c20(ctx, cat, by_id, sp, build_cfg):
+    """The same TLC behaviours replayed on the real task<> machinery built in several configurations; per behaviour the
+    observation sequences (events with payloads and contexts after every external step, final drain included) must be
+    identical, a crash/terminate in one configuration only is a difference too; with async stacks on, TaskMon[C20]
+    additionally demands that the driving thread has no current AsyncStackRoot whenever it is back in the harness."""
+    rep = ctx.rep
+    cfgs = [("cxx20-debug-asyncstacks", ()), ("cxx20-ndebug", ("NDEBUG",))]
+    if not ctx.quick:
+        cfgs.append(("cxx20-ndebug-asyncstacks", ("NDEBUG", "UNIFEX_NO_ASYNC_STACKS=0")))
+    rep.assume("configurations compared (g++-12 -std=c++20 -fcoroutines, ASan+UBSan): %s" % ", ".join(n for n, _ in cfgs))
+    exes = [(n, build_cfg(d)) for n, d in cfgs]
+    behaviours, bp = make_behaviours(ctx, cat, by_id, sp, int(os.environ.get("VERIF_CORO_CAP", "0") or 0) or (1500 if ctx.quick else 15000))
+    res = {}
+    for name, exe in exes:
+        outp = os.path.join(ctx.work, "c20_out_%s.ndjson" % name)
+        lp = os.path.join(ctx.work, "c20_log_%s.ndjson" % name)
+        t0 = time.time()
+        sums, deaths = vlib.run_batches(ctx, exe, ["--behaviours", bp, "--out", outp], len(behaviours), lp, timeout=3000, max_deaths=60)
+        got = {}
+        for l in open(outp):
+            try:
+                r = json.loads(l)
+            except Exception:
+                continue
+            if "obs" in r:
+                got[r["x"]] = r
+        dead = {d["x"]: d for d in deaths}
+        last = max(list(got) + list(dead) + [-1])          # run_batches gives up after max_deaths: nothing beyond `last` was run
+        res[name] = dict(got=got, dead=dead, last=last, log=lp)
+        rep.evaluations += len(got)
+        rep.note("[%s] replayed %d behaviours (%d died) in %.1fs" % (name, len(got), len(dead), time.time() - t0))
+        if "asyncstacks" in name:
+            n, rejected = vlib.validate_batched(ctx, "coro", "TaskMon", lp, env={"PROP": "C20"}, skip_x=set(dead), max_reports=4)
+            for rj in rejected:
+                x = rj["x"]
+                b = behaviours[x] if x is not None and x < len(behaviours) else None
+                text, modes, steps = describe_b(by_id, b) if b else ("?", {}, [])
+                nxt = rj["events"][rj["prefix"]] if rj.get("prefix") is not None and rj["prefix"] < len(rj["events"]) else None
+                rep.violation(dict(engine="coro", event="MonitorReject", monitor="TaskMon", rules="C20", config=name, script=text, modes=modes, steps=steps,
+                                   rejected_event=nxt, rejected_kind=(nxt or {}).get("e"),
+                                   what="TaskMon[C20] (async-stack bookkeeping balanced) rejects the execution of [%s] modes %s steps %s built as %s at event %s: %s" % (
+                                       text, modes, steps, name, rj.get("prefix"), json.dumps(nxt)),
+                                   events=rj["events"][:250]))
+    base = cfgs[0][0]
+    ndiff = 0
+    for name, _ in cfgs[1:]:
+        A, B = res[base], res[name]
+        for x, b in enumerate(behaviours):
+            if x > min(A["last"], B["last"]):
+                break
+            da, db = A["dead"].get(x), B["dead"].get(x)
+            ra, rb = A["got"].get(x), B["got"].get(x)
+            why = None
+            if (da is None) != (db is None):
+                d, cn, other = (da, base, name) if da else (db, name, base)
+                why = "%s (%s %s) in configuration %s, normal completion in %s" % (d["event"], d.get("asan") or "", (d.get("frame") or (d.get("stderr_tail") or "")[-200:]).strip(), cn, other)
+            elif ra is not None and rb is not None and (ra["obs"] != rb["obs"] or ra["root"] != rb["root"] or ra["live"] != rb["live"]):
+                k = next((i for i, (p, q) in enumerate(zip(ra["obs"], rb["obs"])) if p != q), min(len(ra["obs"]), len(rb["obs"])))
+                why = "observations differ at external step %d: %s sees %s, %s sees %s" % (
+                    k, base, json.dumps(ra["obs"][k] if k < len(ra["obs"]) else None)[:300], name, json.dumps(rb["obs"][k] if k < len(rb["obs"]) else None)[:300])
+            if len(b["steps"]) > 1:
+                rep.distinct.add(hash((name, b["cfg"]["script"], json.dumps(b["cfg"]["mode"], sort_keys=True), tuple((s["k"], s["n"], s["ch"]) for s in b["steps"]))))
+            if why:
+                ndiff += 1
+                if ndiff <= 8:
+                    text, modes, steps = describe_b(by_id, b)
+                    kinds = sorted(set(st["k"] for body in b["cfg"]["body"] for st in body))
+                    rep.violation(dict(engine="coro", event="ConfigDiffers", configs=[base, name], script=text, modes=modes, steps=steps, kinds=kinds,
+                                       what="build configuration changes the behaviour of [%s] modes %s steps %s: %s" % (text, modes, steps, why)))
+    rep.note("pairwise comparison of %d behaviours across %d configurations: %d differences" % (len(behaviours), len(cfgs), ndiff))
+    rep.rule("one evaluation = one TLC behaviour replayed in one build configuration; the observation sequences of every behaviour are compared "
+             "pairwise against the debug+async-stacks configuration; executions of async-stack builds are validated by TLC against TaskMon[C20]")
